@@ -73,6 +73,8 @@ TWrite  == IsEvent("p_write") /\ (IF Ev.n < 0 THEN PWriteEpipe ELSE PWrite(Ev.id
 TClose  == IsEvent("p_close") /\ PClose(Ev.s) /\ UNCHANGED scn
 TStuck  == IsEvent("stuck") /\ Stuck(Ev.timer) /\ UNCHANGED scn
 TRunaway == IsEvent("runaway") /\ Runaway /\ UNCHANGED scn
+\* the library burnt CPU without issuing any system call (seen by the harness's CPU-time watchdog)
+TCpuSpin == IsEvent("cpu_spin") /\ Runaway /\ UNCHANGED scn
 
 \* events that carry no state change (notes of the harness)
 TNote ==
@@ -88,7 +90,7 @@ TEnd ==
 TraceNext ==
   \/ TReset \/ TCall \/ TRet \/ TCommit \/ TChildRd \/ TChildWr \/ TChildEp \/ TChildCl \/ TChildEx
   \/ TChildWk \/ TTick \/ TPoll \/ TBlock \/ TRead \/ TWpart \/ TWrite \/ TClose \/ TStuck \/ TRunaway
-  \/ TNote \/ TEnd
+  \/ TCpuSpin \/ TNote \/ TEnd
 
 TraceSpec == TraceInit /\ [][TraceNext]_tvars
 
